@@ -386,6 +386,7 @@ func c02Instances(add func(*Instance), thorough bool, inv int) {
 			{P("ak", 1, "akeys", 4, "acow", 1, "ac0", 201), 0, 65535, 0, 0, 3, 0},                                // one short run, cow
 			{two, 0, 262143, 0, 0, 7, 1},
 			{P("ak", 1, "akeys", 4, "acow", 0, "ac0", 13), 30720, 31, 30800, 31, -1, 1}, // range on a 4096-element array
+			{P("ak", 3, "akeys", 4, "acow", 1, "ac0", 1, "ac1", 1, "ac2", 1), 0, 7, 131064, 15, -1, 0},    // two whole leading chunks dropped, the third (shared) chunk survives
 		}
 		for _, r := range rgs {
 			pp := with(base, "m", m, "sb", r.sb, "sm", r.sm, "eb", r.eb, "em", r.em, "len", r.ln)
@@ -424,6 +425,12 @@ func c09Instances(add func(*Instance), thorough bool) {
 	// union of two run chunks with two runs each (short runs: the union can be inefficient as a run chunk)
 	for _, op := range []int{1, 8} { // or, lazyOR + repair (the in-place forms add value by value: thousands of paths, thorough tier)
 		add(&Instance{Func: "VerifC01ContainerBinop", Params: P("op", op, "ka", kR, "sa", 2, "kb", kR, "sb", 2, "L", 4, "inv", 1, "eff", 1)})
+	}
+	// ParOr / ParHeapOr of an array chunk with a short run chunk at the same key (the lazy merge promotes to a bitmap chunk,
+	// the repair step has to bring it back)
+	for _, g := range []int{5, 7} {
+		add(&Instance{Func: "VerifC11Aggregate", Params: P("L", 7, "eff", 1, "inv", 1, "g", g, "lst", 12, "w", 1, "xb", 56, "xm", 15,
+			"ak", 2, "akeys", 4, "ac0", 21, "ac1", 21, "bk", 2, "bkeys", 4, "bc0", 224, "bc1", 21, "ck", 1, "ckeys", 4, "cc0", 21)})
 	}
 	// whole-bitmap transforms: static Flip inside / across short runs, AddOffset64 splitting run, array and bitmap chunks
 	flipBase := P("L", 7, "eff", 1, "inv", 1, "xb", 0, "xm", -1)
@@ -558,6 +565,7 @@ func c04Instances(add func(*Instance), thorough bool) {
 		{P("ak", 2, "akeys", 4, "acow", 0, "ac0", 1, "ac1", 100), 65536 + 4150, 15},
 		{P("ak", 2, "akeys", 3, "acow", 0, "ac0", 220, "ac1", 1), 0, -1},
 		{P("ak", 1, "akeys", 2, "acow", 0, "ac0", 226), 0, -1},
+		{P("ak", 2, "akeys", 4, "acow", 0, "ac0", 201, "ac1", 201), 0, 131071}, // two run chunks (the iterator re-uses its embedded run iterator)
 	} {
 		add(&Instance{Func: "VerifC04Protocol", Params: with(b.p, "steps", steps, "L", 2, "xb", b.xb, "xm", b.xm)})
 		add(&Instance{Func: "VerifC04Protocol", Params: with(b.p, "steps", 2, "L", 2, "xb", b.xb, "xm", b.xm)})
@@ -950,6 +958,26 @@ func c07MoreInstances(add func(*Instance), thorough bool) {
 				"ck", 2, "ckeys", 13, "ccow", 0, "cc0", 21, "cc1", 21, "emp", 2, "op", op, "mut", 0, "mk", mk, "pre", 1, "xb", 4*65536+56, "xm", 15)})
 		}
 	}
+	// ParOr / ParHeapOr whose FIRST member holds a full run or a bitmap chunk at a key the second member also has (the merge of
+	// the first two members must not work in place on the first)
+	for _, op := range []int{16, 18} {
+		for _, c0 := range []int{220, 100} {
+			add(&Instance{Func: "VerifC07Op", Params: with(win, "ak", 2, "akeys", 13, "acow", 0, "ac0", c0, "ac1", 21, "bk", 2, "bkeys", 13, "bcow", 0, "bc0", 21, "bc1", 21,
+				"op", op, "mut", 0, "mk", 1, "pre", 0, "xb", 4*65536+4150, "xm", 15)})
+		}
+	}
+	// heap aggregates with one non-empty member next to empty ones: the result is still a bitmap of its own
+	for _, op := range []int{11, 13, 14, 16, 18} {
+		for _, emp := range []int{4, 5} {
+			add(&Instance{Func: "VerifC07Op", Params: with(win, "ak", 2, "akeys", 0, "acow", 1, "ac0", 1, "ac1", 1, "bk", 0, "emp", emp, "op", op, "mut", 0, "mk", 0, "pre", 0)})
+		}
+	}
+	// in-place AndNot that empties the leading chunk of a copy-on-write clone and slides the tail chunks down; then the clone is
+	// mutated inside a tail chunk (its source must not change)
+	add(&Instance{Func: "VerifC07Op", Params: with(win, "ak", 3, "akeys", 4, "acow", 0, "ac0", 1, "ac1", 1, "ac2", 2, "bk", 1, "bkeys", 4, "bcow", 0, "bc0", 220,
+		"op", 8, "mut", 1, "mk", 1, "pre", 1, "xb", 2*65536, "xm", 65535)})
+	add(&Instance{Func: "VerifC07Op", Params: with(win, "ak", 3, "akeys", 4, "acow", 0, "ac0", 1, "ac1", 1, "ac2", 2, "bk", 1, "bkeys", 4, "bcow", 0, "bc0", 220,
+		"op", 8, "mut", 1, "mk", 1, "pre", 1, "xb", 1*65536, "xm", 65535)})
 	// AddMany as the follow-up mutation of a copy-on-write clone (and of its source)
 	cowClone := with(win, "ak", 2, "akeys", 4, "acow", 1, "ac0", 2, "ac1", 1, "bk", 1, "bkeys", 4, "bcow", 0, "bc0", 1, "xb", 0, "xm", 131071)
 	for _, mut := range []int{0, 1, 3} {
@@ -1012,6 +1040,11 @@ func c11Instances(add func(*Instance), thorough bool, inv int) {
 				"ak", 2, "akeys", 4, "ac0", 220, "ac1", 226, "bk", 2, "bkeys", 4, "bc0", 221, "bc1", 221, "ck", 2, "ckeys", 4, "cc0", 21, "cc1", 21,
 				"xb", xb, "xm", 15)})
 		}
+		// unions whose accumulator is an array chunk when the third member's BITMAP chunk arrives (the member must not be written)
+		for _, g := range []int{0, 1, 5} {
+			add(&Instance{Func: "VerifC11Aggregate", Params: with(base, "g", g, "lst", 123, "w", 1,
+				"ak", 1, "akeys", 4, "ac0", 21, "bk", 1, "bkeys", 4, "bc0", 22, "ck", 1, "ckeys", 4, "cc0", 100, "xb", 4150, "xm", 15)})
+		}
 		// unions whose accumulator is a bitmap chunk when the third member's run chunk (possibly ending at 65535) arrives
 		for _, g := range []int{0, 5, 7} {
 			add(&Instance{Func: "VerifC11Aggregate", Params: with(base, "g", g, "lst", 123, "w", 1,
@@ -1047,6 +1080,13 @@ func c11Instances(add func(*Instance), thorough bool, inv int) {
 					}
 					add(&Instance{Func: "VerifC11Aggregate", Params: with(base, "g", g, "lst", l, "w", w, "akeys", kp[0], "bkeys", kp[1], "ckeys", 4,
 						"ac0", 21, "ac1", 21, "bc0", 21, "bc1", 22, "cc0", 21, "xb", 56, "xm", 15)})
+					if (kp[0] == 7 || kp[0] == 8) && l == 12 {
+						// the same with the probe inside the last chunks (keys 65535 and 65533): values lost at the top of the key space
+						for _, pk := range []int{65535, 65533} {
+							add(&Instance{Func: "VerifC11Aggregate", Params: with(base, "g", g, "lst", l, "w", w, "akeys", kp[0], "bkeys", kp[1], "ckeys", 4,
+								"ac0", 21, "ac1", 21, "bc0", 21, "bc1", 22, "cc0", 21, "xb", pk*65536+56, "xm", 15)})
+						}
+					}
 				}
 			}
 		}
